@@ -424,25 +424,31 @@ example : Spec.WF.floatRT (specCfg { fr := true }) ext0 0x3ff8000000000000 = tru
 /-! ## the typed clause: serialise a typed value, read it back with the typed deserializer -/
 
 /-- **C04 (typed values, compact) — partial.** For every schema `s` of the fragment `agreeFragT` — bool, the twelve integer
-    types (128-bit included, any value of the type), char, `String`, byte buffers, unit / unit structs, `Option`, newtype
+    types (128-bit included, any value of the type), `f64`, char, `String`, byte buffers, unit / unit structs, `Option`, newtype
     structs, `Vec`, tuples, maps with every key kind (string, the twelve integer widths, bool, char, unit-variant enums),
     structs, externally tagged enums with unit / newtype / non-empty tuple / struct variants — and every well-formed value
     `v` of that type (`wfTV`: the value
-    inhabits the type, strings valid UTF-8, `char`s scalar values, field / variant / key names distinct valid UTF-8, and
-    not the documented exception: no `Some(x)` whose `x` serialises as JSON `null`) whose text nests at most 127 deep
-    (or the limit is off): `to_string` — the calls `Serialize` makes (`progOf s v`) run through the serializer model —
+    inhabits the type, floats finite, strings valid UTF-8, `char`s scalar values, field / variant / key names distinct valid
+    UTF-8, and not the documented exception: no `Some(x)` whose `x` serialises as JSON `null`) whose text nests at most 127
+    deep (or the limit is off) and whose `f64` members the printer / parser pair returns (`hF`: the named hypothesis
+    `FloatsRoundTrip` on the members — discharged from `RyuShortest` under `float_roundtrip`: `c04_typed_fr`; vacuous without
+    `f64` members: `c04_typed_nofloat`; in the default build it holds for members printing as short literals, C08):
+    `to_string` — the calls `Serialize` makes (`progOf s v`) run through the serializer model —
     succeeds, and `from_str::<T>` of that text (typed deserializer + `end()`, any source) returns `v`.
     By composition: C03 (`c03_compact`: the text is `render` of the program's image), `image_progOf` (that image is the
     image of the `Value` `valueOf s v`), `fromValue_valueOf` (`from_value(to_value(v)) = v`) and the text leg of C16
     (`agree_gen`: the typed deserializer on the printed `Value` returns what `from_value` returns).
-    Missing (named): the pretty formatter (the text leg is proved for the compact layout only; the correspondence op `rtm`
-    runs both formatters); `f64` / `f32` fields (the float step: `FloatsRoundTrip` through the typed number scanner);
-    `Value` members (the text leg covers `Value` targets, but `wfTV` does not yet carry `WFValue` for them) and `IgnoredAny`
-    (no `Serialize` impl); zero-length tuple variants (`{"V":[]}` is read back by the text deserializer — `from_value` refuses it, the composition breaks);
-    `arbitrary_precision`. The `Serialize` impls themselves are serde's / serde_derive's (assumption; the correspondence
-    op `rtm` replays exactly these calls against the crate). -/
-theorem c04_typed_partial (mcfg : Cfg) (_hap : mcfg.ap = false) (src : Src) (ext : Ext) (hext : ExtOK ext)
+    Missing (named): the pretty formatter for the general statement (`c04_typed_pretty_partial` covers it on its own
+    fragment; the correspondence op `rtm` runs both formatters); `f32` fields (`to_string` prints an `f32` with `ryu`'s
+    binary32 digits, which is not the text of the widened `Value` — the detour through `from_value` does not apply; the leaf
+    round trip is `c04_typed_f32_leaf`); `Value` members (the text leg covers `Value` targets, but `wfTV` does not yet
+    carry `WFValue` for them) and `IgnoredAny` (no `Serialize` impl); zero-length tuple variants (`{"V":[]}` is read back by
+    the text deserializer — `from_value` refuses it, the composition breaks); `arbitrary_precision`. The `Serialize` impls
+    themselves are serde's / serde_derive's (assumption; the correspondence op `rtm` replays exactly these calls against
+    the crate). -/
+theorem c04_typed_partial (mcfg : Cfg) (hap : mcfg.ap = false) (src : Src) (ext : Ext) (hext : ExtOK ext)
     (s : Schema) (hs : Proofs.Typed.agreeFragT s = true) (v : TVal) (hw : Model.TypedSer.wfTV s v = true)
+    (hF : FloatsRoundTrip mcfg ext (Model.TypedSer.valueOf s v))
     (hd : mcfg.limitOff = true ∨ depthJV (Model.TypedSer.valueOf s v) ≤ 127) :
     ∃ bufs, serCompact ext (Model.TypedSer.progOf s v) = .ok bufs ∧
       Model.Typed.deTypedTop { cfg := mcfg, src := src } s bufs.flatten = .ok v := by
@@ -459,9 +465,10 @@ theorem c04_typed_partial (mcfg : Cfg) (_hap : mcfg.ap = false) (src : Src) (ext
     rw [htext]
     have hvok := Proofs.TypedSer.vok_valueOf s v hs hw
     have hfv := Proofs.TypedSer.fromValue_valueOf { po := mcfg.po, fr := mcfg.fr, ap := false } rfl {} s v hs hw
-    have hag := Proofs.Typed.agree_gen ext hext (env := { cfg := mcfg, src := src }) rfl
+    have hag := Proofs.Typed.agree_gen ext hext (env := { cfg := mcfg, src := src }) rfl hap
       { po := mcfg.po, fr := mcfg.fr, ap := false } rfl {} Proofs.TypedSer.RT Proofs.TypedSer.closed_RT
-      (fun h => by cases h) (Model.Typed.Schema.size s + 1) s (by omega) hs 0 (Model.TypedSer.valueOf s v) hvok
+      (fun h => by cases h) (fun w v h _ b => Proofs.TypedSer.rt_int_notFloat w v h b) Proofs.TypedSer.rt_f64_range
+      (Model.Typed.Schema.size s + 1) s (by omega) hs 0 (Model.TypedSer.valueOf s v) hvok.1 hF
       (by rcases hd with h | h
           · exact .inl h
           · exact .inr (by omega)) ⟨v, hw, rfl⟩ [] 0 (.inl rfl)
@@ -471,6 +478,30 @@ theorem c04_typed_partial (mcfg : Cfg) (_hap : mcfg.ap = false) (src : Src) (ext
     unfold Model.Typed.deTypedTop
     rw [hag]
     simp [Model.Stream.skipWs]
+
+/-- **C04 (typed values, compact) under `float_roundtrip`.** With `float_roundtrip` and the named hypothesis `RyuShortest ext`
+    about the external printer, every well-formed typed value of the fragment — *all* finite `f64` members included —
+    survives `to_string` → `from_str::<T>`: the float hypothesis of `c04_typed_partial` is C07's round trip. -/
+theorem c04_typed_fr (mcfg : Cfg) (hfr : mcfg.fr = true) (hap : mcfg.ap = false) (src : Src) (ext : Ext) (hext : ExtOK ext)
+    (hr : SJ.Proofs.LexTopRoundtrip.RyuShortest ext)
+    (s : Schema) (hs : Proofs.Typed.agreeFragT s = true) (v : TVal) (hw : Model.TypedSer.wfTV s v = true)
+    (hd : mcfg.limitOff = true ∨ depthJV (Model.TypedSer.valueOf s v) ≤ 127) :
+    ∃ bufs, serCompact ext (Model.TypedSer.progOf s v) = .ok bufs ∧
+      Model.Typed.deTypedTop { cfg := mcfg, src := src } s bufs.flatten = .ok v :=
+  c04_typed_partial mcfg hap src ext hext s hs v hw
+    (Proofs.TypedSer.floatsRT_of_finite _ ext
+      (fun b hb => SJ.Proofs.LexTopParser.floatRT_fr (specCfg mcfg) hfr hap ext hext hr b hb) _
+      (Proofs.TypedSer.vok_valueOf s v hs hw).2) hd
+
+/-- **C04 (typed values, compact) without `f64` members**: no hypothesis about the printer / parser pair, every build
+    without `arbitrary_precision` -/
+theorem c04_typed_nofloat (mcfg : Cfg) (hap : mcfg.ap = false) (src : Src) (ext : Ext) (hext : ExtOK ext)
+    (s : Schema) (hs : Proofs.Typed.agreeFragT s = true) (v : TVal) (hw : Model.TypedSer.wfTV s v = true)
+    (hnf : noFloat (Model.TypedSer.valueOf s v) = true)
+    (hd : mcfg.limitOff = true ∨ depthJV (Model.TypedSer.valueOf s v) ≤ 127) :
+    ∃ bufs, serCompact ext (Model.TypedSer.progOf s v) = .ok bufs ∧
+      Model.Typed.deTypedTop { cfg := mcfg, src := src } s bufs.flatten = .ok v :=
+  c04_typed_partial mcfg hap src ext hext s hs v hw (SJ.Proofs.RoundTrip.floatsRT_of_noFloat _ ext _ hnf) hd
 
 /-- `struct S { a: u8, b: Option<String>, e: E }` with `enum E { U, V(u8, String) }`: `{"a":7,"b":null,"e":{"V":[1,"x\n"]}}` -/
 def exSchema : Schema :=
@@ -486,7 +517,16 @@ example : (serCompact ext0 (Model.TypedSer.progOf exSchema exTV)).map List.flatt
 
 example : ∃ bufs, serCompact ext0 (Model.TypedSer.progOf exSchema exTV) = .ok bufs ∧
     Model.Typed.deTypedTop { cfg := {}, src := .reader } exSchema bufs.flatten = .ok exTV :=
-  c04_typed_partial {} rfl .reader ext0 ext0_ok exSchema (by decide) exTV (by decide) (.inr (by decide))
+  c04_typed_partial {} rfl .reader ext0 ext0_ok exSchema (by decide) exTV (by decide) (by decide) (.inr (by decide))
+
+/-- `struct P { x: f64, n: Vec<u8> }` with `x = 1.5` (`ext0` prints `1.5`): the float hypothesis holds at this value (by
+    evaluation of the default conversion on `1.5`), so the pair round-trips by the theorem -/
+def exFSchema : Schema := .struct_ [([0x78], .f64), ([0x6e], .seq (.int .u8))] false
+def exFTV : TVal := .struct_ [.f64 0x3ff8000000000000, .seq [.int 1, .int 2]]
+
+example : ∃ bufs, serCompact ext0 (Model.TypedSer.progOf exFSchema exFTV) = .ok bufs ∧
+    Model.Typed.deTypedTop { cfg := {}, src := .slice } exFSchema bufs.flatten = .ok exFTV :=
+  c04_typed_partial {} rfl .slice ext0 ext0_ok exFSchema (by decide) exFTV (by decide) (by decide +kernel) (.inr (by decide))
 
 /-- the exception is needed: `Some(())` serialises as `null` and reads back as `None` -/
 example : Model.TypedSer.wfTV (.option .unit) (.some .unit) = false ∧
